@@ -493,6 +493,8 @@ def model_export_to_file(f, model=None, repo=None):
                     if type(attr_value) in PRIMITIVE_PYTHON_TYPES:
                         if attr_name == "name":
                             name = attr_value
+                            if isinstance(name, str):
+                                name = dot_escape(name)
                         else:
                             attrs += (
                                 f"{required}{attr_name}:"
